@@ -16,18 +16,56 @@ Sub-checks (all on float32 features unless a class says otherwise):
   the range of the element's input, masked cells 0, shape kept.
 * call_modes - eval mode returns the input unchanged; training call == apply(draw) under the
   same generator state (module and functional form); shape kept.
+
+Generator classes added in the extension round (all sub-checks share them through ``_feats`` /
+``_lengths`` / ``_shape``; the oracles are unchanged):
+
+* memory layouts - the feature batch is handed over as a slice of a larger tensor (non-zero
+  storage offset), as a permuted / transposed non-contiguous view, or as an every-other-element
+  strided view; the length vector as a slice / strided / stride-0 expanded view; generated mask
+  parameters as transposed / sliced views.
+* sizes - one of T, N, F, num_time_mask, num_freq_mask is taken from the threshold list
+  15..2049 (``THRESH``); features and lengths are then expanded deterministically from a few
+  generated integers (pure function of the case).  Warps beyond 64 frames / coefficients are
+  behind ``ENABLE_LONG_WARP`` (genuine defect, see meta/C08.json).
+* values - non-finite or huge values in the padding frames past each length (no-warp paths
+  only: a warp may legitimately read up to half a frame past the last valid frame), non-finite
+  values in valid cells for the masking check (log-mel features of digital silence are -inf),
+  features scaled by 2^+-60 / 2^+-100, constant features (ties) for the range check.
+* call patterns - the same module object called before on another batch (train or eval mode),
+  the same parameter tuple applied twice.
+* size_grid - a deterministic list with one case per threshold and dimension for the check
+  functions above (Hypothesis re-uses few distinct sizes per run).
 """
 from __future__ import annotations
 
+import os
 from fractions import Fraction
 
 from hypothesis import strategies as st
 
-from ..core import Info, require, subcheck
+from ..core import Info, Reject, require, subcheck
 from .. import fakes
+from ..gen import weighted
 
 TWO24 = 1 << 24
-PRIME = 4099  # prime > any N*T*F generated here (3 * 64 * 12)
+PRIME = 4099  # prime > any N*T*F of the small shapes (3 * 64 * 12)
+BIG_PRIME = 1000003  # prime > any N*T*F of the threshold shapes; (BIG_PRIME + 1) / 8 is exact in float32
+
+# sizes that cross typical implementation thresholds (block sizes, special paths)
+THRESH = [15, 16, 17, 31, 32, 33, 63, 64, 65, 127, 128, 129, 255, 256, 257, 1023, 1024, 1025, 2049]
+
+# Warps over more than 64 frames / coefficients: the float32 solve behind warp_1d_grid loses the
+# pinned ends (T = 129: last valid frame read 0.9 frames off; T = 1025: 7 frames off and out of
+# order).  Genuine defect (the statement quantifies over all T), recorded in
+# replays/C08/linear_warp-long-T-*.json with the proposed repair fixes/C08-warp-grid-float64.diff.
+# Until that is merged the class stays out of the default path; VERIF_C08_LONG_WARP=1 enables it.
+ENABLE_LONG_WARP = False or os.environ.get("VERIF_C08_LONG_WARP", "") == "1"
+LONG_WARP_ABOVE = 64
+
+FEAT_LAYOUTS = ["contig", "offset", "perm_tnf", "perm_nft", "strided"]
+VEC_LAYOUTS = ["contig", "offset", "strided"]
+PAD_FILLS = ["nan", "inf", "-inf", "huge", "mixed"]
 
 # proportions: dyadic (len * p exact in float32) plus the default 0.04 and two others whose
 # product with a length may round either way (handled by the ambiguity rule in _cap)
@@ -38,38 +76,159 @@ PROPS_OTHER = [0.04, 0.1, 0.3]
 # ------------------------------------------------------------------ case -> tensors
 
 
+def _relayout(x, layout):
+    """The same values as ``x`` (3-D) in another memory layout; ``x`` itself is contiguous."""
+    import torch
+
+    if layout in (None, "contig"):
+        return x
+    N, T, F = x.shape
+    if layout == "offset":  # interior of a larger tensor: storage offset and row strides differ
+        big = torch.full((N + 2, T + 3, F + 2), 777.0, dtype=x.dtype)
+        big[1:N + 1, 2:T + 2, 1:F + 1] = x
+        out = big[1:N + 1, 2:T + 2, 1:F + 1]
+    elif layout == "perm_tnf":  # stored time-major
+        out = x.permute(1, 0, 2).contiguous().permute(1, 0, 2)
+    elif layout == "perm_nft":  # stored coefficient-major
+        out = x.transpose(1, 2).contiguous().transpose(1, 2)
+    elif layout == "strided":  # every other frame and coefficient of a larger tensor
+        big = torch.full((N, 2 * T + 1, 2 * F + 1), -555.0, dtype=x.dtype)
+        big[:, 1::2, 1::2] = x
+        out = big[:, 1::2, 1::2]
+    else:
+        raise AssertionError(layout)
+    assert out.shape == x.shape and bool(((out == x) | (out != out)).all())
+    return out
+
+
+def _relayout_vec(x, layout, dim=0):
+    """1-D (or 2-D along ``dim``) tensor with the same values, as a slice / strided / expanded view."""
+    import torch
+
+    if layout in (None, "contig") or x.numel() == 0:
+        return x
+    if layout == "transposed":  # 2-D only
+        return x.t().contiguous().t()
+    n = x.shape[dim]
+    shape = list(x.shape)
+    if layout == "offset":
+        shape[dim] = n + 5
+        big = torch.full(shape, 3, dtype=x.dtype)
+        big.narrow(dim, 2, n).copy_(x)
+        return big.narrow(dim, 2, n)
+    if layout == "strided":
+        shape[dim] = 3 * n + 1
+        big = torch.full(shape, 1, dtype=x.dtype)
+        view = big.narrow(dim, 1, 3 * n)[(slice(None),) * dim + (slice(None, None, 3),)]
+        view.copy_(x)
+        return view
+    if layout == "expanded":  # stride 0: only when all entries are equal
+        if x.dim() == 1 and bool((x == x[0]).all()):
+            return x[:1].expand(n)
+        return x
+    raise AssertionError(layout)
+
+
 def _feats(case, kind=None):
-    """Distinct non-zero dyadic values (k/8, alternating sign), or a time ramp."""
+    """Distinct non-zero dyadic values (k/8, alternating sign), a time ramp, or a constant; optionally
+    scaled by a power of two, with garbage past the lengths / in chosen cells, in the case's layout."""
     import torch
 
     N, T, F = case["N"], case["T"], case["F"]
     kind = kind or case.get("feat_kind", "distinct")
+    dt = torch.float64 if case.get("dtype") == "float64" else torch.float32
     if kind == "ramp":
         x = torch.arange(T, dtype=torch.float32).view(1, T, 1).expand(N, T, F).contiguous()
-        return x
+        return _relayout(x, (case.get("layout") or {}).get("feats"))
     a, b = case.get("fa", 3), case.get("fb", 1)
-    a = a % PRIME or 1
     n = N * T * F
-    assert n < PRIME
-    vals = []
-    for i in range(n):
-        k = (a * i + b) % PRIME + 1  # distinct in 1..PRIME because a is a unit mod PRIME
-        s = -1 if (case.get("signed", True) and k % 3 == 0) else 1
-        vals.append(s * k / 8.0)
-    dt = torch.float64 if case.get("dtype") == "float64" else torch.float32
-    return torch.tensor(vals, dtype=dt).view(N, T, F)
+    if kind == "constant":
+        x = torch.full((N, T, F), ((b % 40) + 1) / 8.0 * (-1 if a % 2 else 1), dtype=dt)
+    elif n < PRIME:
+        a = a % PRIME or 1
+        vals = []
+        for i in range(n):
+            k = (a * i + b) % PRIME + 1  # distinct in 1..PRIME because a is a unit mod PRIME
+            s = -1 if (case.get("signed", True) and k % 3 == 0) else 1
+            vals.append(s * k / 8.0)
+        x = torch.tensor(vals, dtype=dt).view(N, T, F)
+    else:
+        assert n < BIG_PRIME
+        a = a % BIG_PRIME or 1
+        k = (a * torch.arange(n, dtype=torch.int64) + b) % BIG_PRIME + 1
+        sgn = torch.where((k % 3 == 0) & bool(case.get("signed", True)), -1, 1)
+        x = ((sgn * k).to(torch.float64) / 8.0).to(dt).view(N, T, F)
+    if case.get("scale_exp"):
+        x = x * (2.0 ** case["scale_exp"])  # exact: power of two, no over- or underflow for |exp| <= 100
+    fill = case.get("pad_fill")
+    if fill:
+        lens = _eff_lengths(case)
+        for i in range(N):
+            if lens[i] < T:
+                x[i, lens[i]:] = _garbage(fill, T - lens[i], F, dt, i)
+    for n_, t_, f_, knd in case.get("special_cells") or []:
+        x[n_ % N, t_ % T, f_ % F] = {"nan": float("nan"), "inf": float("inf"), "-inf": float("-inf"), "huge": 3.0e38}[knd]
+    return _relayout(x, (case.get("layout") or {}).get("feats"))
+
+
+def _garbage(fill, rows, F, dt, salt):
+    import torch
+
+    vals = {"nan": [float("nan")], "inf": [float("inf")], "-inf": [float("-inf")], "huge": [3.0e38, -3.0e38],
+            "mixed": [float("nan"), float("inf"), -3.0e38, float("-inf"), 3.0e38, 1e-30]}[fill]
+    idx = (torch.arange(rows * F) + salt) % len(vals)
+    return torch.tensor(vals, dtype=dt)[idx].view(rows, F)
+
+
+def _same(a, b):
+    """Bitwise-style equality that treats NaN as equal to NaN (shape, dtype and every value)."""
+    return a.shape == b.shape and a.dtype == b.dtype and bool(((a == b) | ((a != a) & (b != b))).all())
+
+
+def _len_list(case):
+    """The case's lengths as a list of ints (None when omitted); rules expand deterministically."""
+    spec = case.get("lengths")
+    if spec is None or isinstance(spec, list):
+        return None if spec is None else [int(x) for x in spec]
+    N, T = case["N"], case["T"]
+    a, b = spec["a"], spec["b"]
+    if spec["rule"] == "mod":
+        return [1 + (a * n + b) % T for n in range(N)]
+    if spec["rule"] == "near":  # within 0..2 of T
+        return [max(1, T - (a * n + b) % 3) for n in range(N)]
+    cand = sorted({x for x in THRESH + [1, 2, T - 1, T] if 1 <= x <= T})  # "thresh"
+    return [cand[(a * n + b) % len(cand)] for n in range(N)]
 
 
 def _lengths(case):
     import torch
 
-    if case.get("lengths") is None:
+    lens = _len_list(case)
+    if lens is None:
         return None
-    return torch.tensor([int(x) for x in case["lengths"]], dtype=torch.long)
+    return _relayout_vec(torch.tensor(lens, dtype=torch.long), (case.get("layout") or {}).get("lengths"))
 
 
 def _eff_lengths(case):
-    return [case["T"]] * case["N"] if case.get("lengths") is None else [int(x) for x in case["lengths"]]
+    lens = _len_list(case)
+    return [case["T"]] * case["N"] if lens is None else lens
+
+
+def _layout_classes(case, classes):
+    lay = case.get("layout") or {}
+    for k in ("feats", "lengths", "params"):
+        if lay.get(k) not in (None, "contig"):
+            classes.add("%s_%s" % (k, lay[k]))
+    if case.get("pad_fill") and any(L < case["T"] for L in _eff_lengths(case)):
+        classes.add("garbage_past_length")
+        classes.add("garbage_" + case["pad_fill"])
+    if case.get("big"):
+        classes.add("big_" + case["big"])
+        size = {"T": case["T"], "N": case["N"], "F": case["F"], "MT": case["cfg"]["num_time_mask"] if case.get("cfg") else 0,
+                "MF": case["cfg"]["num_freq_mask"] if case.get("cfg") else 0}[case["big"]]
+        classes.add("size_ge_1023" if size >= 1023 else "size_ge_127" if size >= 127 else "size_15_65")
+    if case.get("scale_exp"):
+        classes.add("scaled_2^%d" % case["scale_exp"])
 
 
 CFG_KEYS = ["max_time_warp", "max_freq_warp", "max_time_mask", "max_freq_mask", "max_time_mask_proportion",
@@ -278,6 +437,93 @@ def _shape(draw, tier, full_prob=3):
     return N, T, F, lengths
 
 
+_K = st.integers(0, 1 << 16)  # drawn FIRST in _base (see _thresh)
+
+
+def _thresh(k, limit):
+    """The threshold selected by the integer k (the very first choice of the case).
+
+    Hypothesis often completes a random prefix of choices with the simplest values for all later ones, and
+    sampled_from / small ranges lean to their first elements: a size drawn late collapses onto the smallest
+    thresholds for whole runs.  Drawn first, and scrambled, k spreads over the list; k = 0 is still the smallest
+    size, so shrinking works."""
+    xs = [x for x in THRESH if x <= limit]
+    xs = xs + [x for x in xs if x >= 1023] * 2
+    return st.just(xs[(k * 40503 + k // 7) % len(xs)])
+
+
+@st.composite
+def _base(draw, tier, big_dims=(), big_weight=1, garbage=False, layouts=True):
+    """Shape, lengths, memory layouts (and garbage past the lengths) of one case.
+
+    With probability big_weight/6 one dimension named in ``big_dims`` is taken from THRESH; the lengths
+    are then a rule expanded deterministically by ``_len_list``.  "MT" / "MF" (number of masks) are applied
+    to the configuration by ``_apply_big_cfg``."""
+    thorough = tier == "thorough"
+    k = draw(_K)
+    big = None
+    if big_dims and draw(st.integers(0, 5)) < big_weight:
+        big = draw(st.sampled_from(list(big_dims) + (["T"] if "T" in big_dims else [])))
+    if big is None:
+        N, T, F, lengths = draw(_shape(tier))
+    else:
+        N, T, F = draw(st.integers(1, 2)), draw(st.integers(1, 6)), draw(st.integers(1, 3))
+        if big == "T":
+            T = draw(_thresh(k, 2049))
+        elif big == "N":
+            N = draw(_thresh(k, 1025 if thorough else 257))
+        elif big == "F":
+            F = draw(_thresh(k, 1025 if thorough else 257))
+        elif big == "MT":
+            T = draw(_thresh(k, 257))  # long enough for the proportional count cap to admit many masks
+        mode = draw(st.sampled_from(["none", "full", "mod", "near", "thresh", "thresh"]))
+        if mode == "none":
+            lengths = None
+        elif mode == "full":
+            lengths = {"rule": "near", "a": 0, "b": 0}
+        else:
+            lengths = {"rule": mode, "a": draw(st.integers(0, 40)), "b": draw(st.integers(0, 2100))}
+    case = {"N": N, "T": T, "F": F, "lengths": lengths}
+    if big:
+        case["big"] = big
+        if big in ("MT", "MF"):
+            case["big_count"] = draw(_thresh(k // 3 + 1, 1025 if thorough else 257))
+    if layouts:
+        lens = _len_list(case)
+        vec = VEC_LAYOUTS + (["expanded", "expanded"] if lens is not None and len(set(lens)) == 1 and N > 1 else [])
+        case["layout"] = {
+            "feats": draw(weighted((4, st.just("contig")), (4, st.sampled_from(FEAT_LAYOUTS[1:])))),
+            "lengths": draw(weighted((3, st.just("contig")), (2, st.sampled_from(vec[1:])))),
+        }
+    if garbage and draw(st.integers(0, 2)) == 0:
+        case["pad_fill"] = draw(st.sampled_from(PAD_FILLS))
+    return case
+
+
+def _apply_big_cfg(case):
+    """Number-of-masks thresholds: the proportional count cap is lifted so that the absolute one is reached."""
+    if case.get("big") == "MT":
+        case["cfg"]["num_time_mask"] = case["big_count"]
+    elif case.get("big") == "MF":
+        case["cfg"]["num_freq_mask"] = case["big_count"]
+    return case
+
+
+def _long_warp(case):
+    cfg = case["cfg"]
+    return bool((cfg["max_time_warp"] and case["T"] > LONG_WARP_ABOVE) or (cfg["max_freq_warp"] and case["F"] > LONG_WARP_ABOVE))
+
+
+def _no_long_warp(case):
+    """Unless ENABLE_LONG_WARP: switch the warps over more than 64 frames / coefficients off."""
+    if not ENABLE_LONG_WARP:
+        if case["T"] > LONG_WARP_ABOVE:
+            case["cfg"]["max_time_warp"] = 0.0
+        if case["F"] > LONG_WARP_ABOVE:
+            case["cfg"]["max_freq_warp"] = 0.0
+    return case
+
+
 @st.composite
 def _cfg(draw, T, F, warp=True, masks=True, order=False):
     cfg = {
@@ -298,10 +544,11 @@ def _draw_strategy(injected):
     def strategy(tier):
         @st.composite
         def build(draw):
-            N, T, F, lengths = draw(_shape(tier))
-            case = {"N": N, "T": T, "F": F, "lengths": lengths, "cfg": draw(_cfg(T, F)),
-                    "route": draw(st.sampled_from(["module", "functional"])),
-                    "fa": draw(st.integers(1, 50)), "fb": draw(st.integers(0, 50))}
+            case = draw(_base(tier, big_dims=("T", "N", "F", "MT", "MF"), garbage=True))
+            case.update({"cfg": draw(_cfg(case["T"], case["F"])),
+                         "route": draw(st.sampled_from(["module", "functional"])),
+                         "fa": draw(st.integers(1, 50)), "fb": draw(st.integers(0, 50))})
+            _apply_big_cfg(case)
             if injected:
                 case["script"] = draw(st.lists(_uniform_k(), min_size=1, max_size=24))
                 case["seed"] = 0
@@ -324,18 +571,22 @@ def _draw_check(case):
         classes.add("lengths_omitted")
     if any(L < case["T"] for L in _eff_lengths(case)):
         classes.add("some_length_below_T")
+    _layout_classes(case, classes)
     return Info(nontrivial=_nontrivial(case, classes), classes=sorted(classes))
 
 
 subcheck("C08", "draw_bounds", _draw_strategy(False), 1500, 40000,
-         doc="generated (N,T,F), lengths, limits from {0,1,small,>size/2,>size}, proportions incl. 0 and 1; real generator seeded from the case; every drawn tensor against the documented caps (exact rational arithmetic)",
+         doc="generated (N,T,F), lengths, limits from {0,1,small,>size/2,>size}, proportions incl. 0 and 1; real generator seeded from the case; every drawn tensor against the documented caps (exact rational arithmetic); 1 case in 6 takes T, N, F or a number of masks from the thresholds 15..2049; features / lengths also as offset, permuted, strided, expanded views; non-finite or huge garbage past the lengths",
          required_classes=["time_mask_positive", "freq_mask_positive", "time_warp_limited_by_half_size",
-                           "time_mask_count_limited", "time_mask_width_limited_by_proportion", "some_length_below_T"])(_draw_check)
+                           "time_mask_count_limited", "time_mask_width_limited_by_proportion", "some_length_below_T",
+                           "big_T", "big_N", "big_F", "big_MT", "big_MF", "feats_offset", "feats_strided",
+                           "lengths_offset", "lengths_strided", "garbage_past_length"])(_draw_check)
 
 subcheck("C08", "draw_bounds_injected", _draw_strategy(True), 1500, 40000,
          doc="same oracle with torch.rand replaced by scripted uniforms k/2^24 biased to 0, 2^-24, 1/2, 1-2^-24",
          required_classes=["time_mask_positive", "freq_mask_positive", "time_mask_at_cap", "time_mask_touches_end",
-                           "freq_mask_at_cap", "time_warp_limited_by_half_size"])(_draw_check)
+                           "freq_mask_at_cap", "time_warp_limited_by_half_size", "big_T", "big_N", "big_MT",
+                           "lengths_strided", "garbage_past_length"])(_draw_check)
 
 
 # ------------------------------------------------------------------ masking is exact
@@ -367,16 +618,28 @@ def _mask_oracle(feats, t_0, t, f_0, f, on_time, on_freq):
 def _mask_strategy(tier):
     @st.composite
     def build(draw):
-        N, T, F, lengths = draw(_shape(tier))
+        case = draw(_base(tier, big_dims=("T", "N", "F", "MT", "MF"), garbage=True))
+        N, T, F = case["N"], case["T"], case["F"]
         source = draw(st.sampled_from(["drawn", "drawn", "generated"]))
-        case = {"N": N, "T": T, "F": F, "lengths": lengths, "source": source,
-                "route": draw(st.sampled_from(["module", "functional"])),
-                "dtype": draw(st.sampled_from(["float32", "float32", "float64"])),
-                "fa": draw(st.integers(1, 50)), "fb": draw(st.integers(0, 50)),
-                "order": draw(st.integers(1, 3)),
-                "empty_style": draw(st.sampled_from(["empty", "none"]))}
+        if case.get("big") in ("MT", "MF"):
+            source = "drawn"
+        case.update({"source": source,
+                     "route": draw(st.sampled_from(["module", "functional"])),
+                     "dtype": draw(st.sampled_from(["float32", "float32", "float64"])),
+                     "fa": draw(st.integers(1, 50)), "fb": draw(st.integers(0, 50)),
+                     "order": draw(st.integers(1, 3)),
+                     "empty_style": draw(st.sampled_from(["empty", "none"]))})
+        if draw(st.integers(0, 3)) == 0:
+            # non-finite / huge values in (possibly valid, possibly masked) cells: log-mel features of
+            # digital silence are -inf; masking must give exactly 0 there and leave the others alone
+            case["special_cells"] = draw(st.lists(
+                st.tuples(st.integers(0, 2), st.integers(0, 70), st.integers(0, 12),
+                          st.sampled_from(["-inf", "-inf", "inf", "nan", "huge"])).map(list), min_size=1, max_size=6))
+        if draw(st.integers(0, 4)) == 0:
+            case["scale_exp"] = draw(st.sampled_from([60, -60, 100, -100]))
         if source == "drawn":
             case["cfg"] = draw(_cfg(T, F, warp=False))
+            _apply_big_cfg(case)
             if draw(st.booleans()):
                 case["script"] = draw(st.lists(_uniform_k(), min_size=1, max_size=16))
                 case["seed"] = 0
@@ -384,32 +647,61 @@ def _mask_strategy(tier):
                 case["script"] = None
                 case["seed"] = draw(st.integers(0, 2 ** 31 - 1))
         else:
-            lens = lengths if lengths is not None else [T] * N
+            lens = _eff_lengths(case)
             mt = draw(st.integers(0, 3))
             mf = draw(st.integers(0, 3))
-            tm, fm = [], []
-            for n in range(N):
-                row = []
-                for _ in range(mt):
-                    wd = draw(st.integers(0, lens[n]))
-                    s0 = draw(st.integers(0, lens[n] - wd))
-                    row.append([s0, wd])
-                tm.append(row)
-                row = []
-                for _ in range(mf):
-                    wd = draw(st.integers(0, F))
-                    s0 = draw(st.integers(0, F - wd))
-                    row.append([s0, wd])
-                fm.append(row)
-            case["time_masks"], case["freq_masks"] = tm, fm
+            if N <= 4:
+                tm, fm = [], []
+                for n in range(N):
+                    row = []
+                    for _ in range(mt):
+                        wd = draw(st.integers(0, lens[n]))
+                        s0 = draw(st.integers(0, lens[n] - wd))
+                        row.append([s0, wd])
+                    tm.append(row)
+                    row = []
+                    for _ in range(mf):
+                        wd = draw(st.integers(0, F))
+                        s0 = draw(st.integers(0, F - wd))
+                        row.append([s0, wd])
+                    fm.append(row)
+                case["time_masks"], case["freq_masks"] = tm, fm
+            else:
+                # wide batch: masks expanded deterministically from a few integers by _expand_masks
+                case["mask_rule"] = {"mt": mt, "mf": mf, "a": draw(st.integers(0, 50)), "b": draw(st.integers(0, 50))}
+            case["layout"]["params"] = draw(st.sampled_from(["contig", "contig", "transposed", "offset", "strided"]))
         return case
 
     return build()
 
 
+def _expand_masks(case):
+    """[start, width] per element and mask, inside the element's valid frames / the coefficients."""
+    if "time_masks" in case:
+        return case["time_masks"], case["freq_masks"]
+    r, lens, F = case["mask_rule"], _eff_lengths(case), case["F"]
+    tm, fm = [], []
+    for n in range(case["N"]):
+        row = []
+        for m in range(r["mt"]):
+            wd = (r["a"] * (n + 1) + 7 * m + r["b"]) % (lens[n] + 1)
+            row.append([(r["b"] * (n + 2) + 3 * m + r["a"]) % (lens[n] - wd + 1), wd])
+        tm.append(row)
+        row = []
+        for m in range(r["mf"]):
+            wd = (r["b"] * (n + 1) + 5 * m + r["a"]) % (F + 1)
+            row.append([(r["a"] * (n + 3) + m + r["b"]) % (F - wd + 1), wd])
+        fm.append(row)
+    return tm, fm
+
+
 @subcheck("C08", "mask_exact", _mask_strategy, 1500, 40000,
-          doc="apply_parameters with mask parameters only (drawn under seed / scripted uniforms, or generated inside their bounds): bitwise equal to a loop oracle - 0 on masked rows/columns, input elsewhere; float32 and float64",
-          required_classes=["time_and_freq", "time_only", "freq_only", "some_length_below_T", "overlapping_masks"])
+          doc="apply_parameters with mask parameters only (drawn under seed / scripted uniforms, or generated inside their bounds): bitwise equal (NaN == NaN) to a loop oracle - 0 on masked rows/columns, input elsewhere; float32 and float64; thresholds 15..2049 for T, N, F and the number of masks; offset / permuted / strided views of features, lengths and mask parameters; non-finite garbage past the lengths and non-finite values in valid cells; the same parameter tuple applied twice",
+          required_classes=["time_and_freq", "time_only", "freq_only", "some_length_below_T", "overlapping_masks",
+                            "big_T", "big_N", "big_F", "big_MT", "big_MF",
+                            "feats_offset", "feats_perm_tnf", "feats_perm_nft", "feats_strided", "lengths_offset", "lengths_strided",
+                            "params_transposed", "params_offset", "params_strided",
+                            "garbage_past_length", "non_finite_cell_masked", "non_finite_cell_kept"])
 def _mask_check(case):
     import torch
     from pydrobert.torch.functional import spec_augment_apply_parameters
@@ -426,20 +718,22 @@ def _mask_check(case):
                 "warp disabled but warp parameters drawn", [w_0.tolist(), v_0.tolist()], "empty")
         order = case["cfg"].get("interpolation_order", 1)
     else:
-        tm, fm = case["time_masks"], case["freq_masks"]
+        tm, fm = _expand_masks(case)
         mt, mf = len(tm[0]), len(fm[0])
+        play = (case.get("layout") or {}).get("params")
 
         def none_or_empty():
             return None if case["empty_style"] == "none" else torch.empty(0)
 
+        def par(rows, k):
+            return _relayout_vec(torch.tensor([[m[k] for m in row] for row in rows], dtype=torch.long), play, dim=1)
+
         if mt:
-            t_0 = torch.tensor([[m[0] for m in row] for row in tm], dtype=torch.long)
-            t = torch.tensor([[m[1] for m in row] for row in tm], dtype=torch.long)
+            t_0, t = par(tm, 0), par(tm, 1)
         else:
             t_0, t = none_or_empty(), none_or_empty()
         if mf:
-            f_0 = torch.tensor([[m[0] for m in row] for row in fm], dtype=torch.long)
-            f = torch.tensor([[m[1] for m in row] for row in fm], dtype=torch.long)
+            f_0, f = par(fm, 0), par(fm, 1)
         else:
             f_0, f = none_or_empty(), none_or_empty()
         params = (none_or_empty(), none_or_empty(), none_or_empty(), none_or_empty(), t_0, t, f_0, f)
@@ -447,21 +741,32 @@ def _mask_check(case):
     on_time = params[5] is not None and params[5].numel() > 0
     on_freq = params[7] is not None and params[7].numel() > 0
     before = feats.clone()
+    params_before = [None if x is None else x.clone() for x in params]
     if case["route"] == "module":
         m = _module(dict(case.get("cfg") or {k: 0 for k in CFG_KEYS}, interpolation_order=order))
-        out = m.apply_parameters(feats, params, lengths) if lengths is not None else m.apply_parameters(feats, params)
+
+        def apply():
+            return m.apply_parameters(feats, params, lengths) if lengths is not None else m.apply_parameters(feats, params)
     else:
-        out = spec_augment_apply_parameters(feats, params, order, lengths)
-    require(torch.equal(feats, before), "apply_parameters modified its input in place", None, None)
+        def apply():
+            return spec_augment_apply_parameters(feats, params, order, lengths)
+    out = apply()
+    require(_same(feats, before), "apply_parameters modified its input in place", None, None)
     require(tuple(out.shape) == (N, T, F), "output shape differs from input shape", list(out.shape), [N, T, F])
     require(out.dtype == feats.dtype, "output dtype differs from input dtype", str(out.dtype), str(feats.dtype))
     exp, cells = _mask_oracle(feats, params[4].tolist() if on_time else None, params[5].tolist() if on_time else None,
                               params[6].tolist() if on_freq else None, params[7].tolist() if on_freq else None,
                               on_time, on_freq)
-    if not torch.equal(out, exp):
-        bad = (out != exp).nonzero().tolist()[:6]
+    if not _same(out, exp):
+        bad = (~((out == exp) | ((out != out) & (exp != exp)))).nonzero().tolist()[:6]
         require(False, "masked output differs from the loop oracle (0 on masked bands, input elsewhere) at %s" % bad,
                 [out[tuple(i)].item() for i in bad], [exp[tuple(i)].item() for i in bad])
+    # call pattern: the same parameter tuple applied a second time (e.g. to a second feature stream)
+    out2 = apply()
+    require(_same(out2, exp), "applying the same parameter tuple a second time gives a different result", None, None)
+    for x, y in zip(params, params_before):
+        require(x is None or torch.equal(x, y), "apply_parameters modified a parameter tensor in place",
+                None if x is None else x.tolist()[:8], None if y is None else y.tolist()[:8])
     tpos = on_time and bool((params[5] > 0).any())
     fpos = on_freq and bool((params[7] > 0).any())
     if tpos and fpos:
@@ -473,8 +778,8 @@ def _mask_check(case):
     else:
         classes.add("no_mask")
     if on_time:
-        for n in range(N):
-            iv = [(int(a), int(a) + int(b)) for a, b in zip(params[4][n].tolist(), params[5][n].tolist()) if b > 0]
+        for n in range(min(N, 8)):
+            iv = [(int(a), int(a) + int(b)) for a, b in zip(params[4][n].tolist(), params[5][n].tolist()) if b > 0][:12]
             if any(x[0] < y[1] and y[0] < x[1] for i, x in enumerate(iv) for y in iv[i + 1:]):
                 classes.add("overlapping_masks")
     short = any(L < T for L in _eff_lengths(case))
@@ -484,6 +789,13 @@ def _mask_check(case):
         classes.add("float64")
     if cells == N * T * F and cells:
         classes.add("everything_masked")
+    nonfinite = ~torch.isfinite(before)
+    if case.get("special_cells"):
+        if bool((nonfinite & (exp == 0)).any()):
+            classes.add("non_finite_cell_masked")
+        if bool((nonfinite & (exp != 0)).any()):
+            classes.add("non_finite_cell_kept")
+    _layout_classes(case, classes)
     return Info(nontrivial=(tpos or fpos) and short, classes=sorted(classes))
 
 
@@ -494,16 +806,24 @@ def _frames(grid, T):
     return ((grid + 1) * T - 1) / 2
 
 
+def _warp_dims():
+    """Dimensions that may be taken from THRESH under a warp: the batch always, T and F only behind the switch."""
+    return ("N", "T", "T", "F") if ENABLE_LONG_WARP else ("N",)
+
+
 def _warp_strategy(tier):
     @st.composite
     def build(draw):
-        N, T, F, lengths = draw(_shape(tier))
+        case = draw(_base(tier, big_dims=_warp_dims(), big_weight=2 if ENABLE_LONG_WARP else 1))
+        N, T, F = case["N"], case["T"], case["F"]
+        if case.get("big") == "F":
+            case["F"] = F = draw(st.integers(1, 3))  # the linear laws are about time; keep the ramp small
         cfg = draw(_cfg(T, F, warp=False, masks=False))
-        lens = lengths if lengths is not None else [T] * N
+        lens = _eff_lengths(case)
         cfg["max_time_warp"] = draw(st.sampled_from(
             [0.5, 1.0, 1.5, 2.0, 3.0, max(0.5, float(T // 2)), T / 2.0 + 0.5, float(T), 80.0, max(0.5, min(lens) / 2.0)]))
-        case = {"N": N, "T": T, "F": F, "lengths": lengths, "cfg": cfg,
-                "route": draw(st.sampled_from(["module", "functional"]))}
+        case.update({"cfg": cfg, "route": draw(st.sampled_from(["module", "functional"]))})
+        case["layout"]["params"] = draw(st.sampled_from(["contig", "contig", "offset", "strided"]))
         if draw(st.integers(0, 3)) == 0:
             case["script"] = draw(st.lists(_uniform_k(), min_size=1, max_size=8))
             case["seed"] = 0
@@ -530,20 +850,28 @@ def _linear_laws(pos, L, T, n, via):
 
 
 @subcheck("C08", "linear_warp", _warp_strategy, 1500, 40000,
-          doc="drawn time warps of order 1 (seeded generator, 1 in 4 scripted boundary uniforms): read positions over the valid frames via warp_1d_grid and via apply_parameters on a time ramp are non-decreasing (1e-3) and begin/end within half a frame of frames 0 / len-1",
-          required_classes=["time_warp_limited_by_half_size", "some_length_below_T", "shifted_point_beyond_last_frame"])
+          doc="drawn time warps of order 1 (seeded generator, 1 in 4 scripted boundary uniforms): read positions over the valid frames via warp_1d_grid and via apply_parameters on a time ramp are non-decreasing (1e-3) and begin/end within half a frame of frames 0 / len-1; batches of 15..257 (1025) elements; ramp, lengths and the drawn warp parameters also as offset / permuted / strided views; T from 65 to 2049 only behind ENABLE_LONG_WARP",
+          required_classes=["time_warp_limited_by_half_size", "some_length_below_T", "shifted_point_beyond_last_frame",
+                            "big_N", "feats_offset", "feats_perm_tnf", "feats_strided", "lengths_strided", "params_offset", "params_strided"]
+          + (["big_T"] if ENABLE_LONG_WARP else []))
 def _warp_check(case):
     import torch
     from pydrobert.torch.functional import spec_augment_apply_parameters, warp_1d_grid
 
+    if _long_warp(case) and not ENABLE_LONG_WARP:
+        raise Reject("warps over more than %d frames are behind ENABLE_LONG_WARP" % LONG_WARP_ABOVE)
     N, T, F = case["N"], case["T"], case["F"]
     ramp = _feats(case, "ramp")
     lengths = _lengths(case)
     lens = _eff_lengths(case)
     params = _draw(case, ramp, lengths)
     classes = _check_draw(case, params)
+    play = (case.get("layout") or {}).get("params")
+    if play not in (None, "contig"):
+        # the drawn warp parameters handed on as views of larger tensors
+        params = tuple(_relayout_vec(x, play) if i < 2 else x for i, x in enumerate(params))
     w_0, w = params[0], params[1]
-    lt = torch.tensor(lens, dtype=torch.long)
+    lt = _relayout_vec(torch.tensor(lens, dtype=torch.long), (case.get("layout") or {}).get("lengths"))
     grid = warp_1d_grid(w_0, w, lt, T, 1)
     require(tuple(grid.shape) == (N, T), "warp_1d_grid shape", list(grid.shape), [N, T])
     pos_all = _frames(grid, T).clamp(0, T - 1)
@@ -553,6 +881,7 @@ def _warp_check(case):
     else:
         out = spec_augment_apply_parameters(ramp, params, 1, lengths)
     require(tuple(out.shape) == (N, T, F), "output shape differs from input shape", list(out.shape), [N, T, F])
+    pos_l, out_l = pos_all.tolist(), out.permute(0, 2, 1).tolist()
     for n in range(N):
         L = lens[n]
         dst = float(w_0[n]) + float(w[n])
@@ -560,13 +889,14 @@ def _warp_check(case):
             classes.add("shifted_point_beyond_last_frame")
         if dst >= L - 1 - 0.01 or dst <= 0.01:
             classes.add("shifted_point_within_0.01_of_an_end")
-        _linear_laws([float(x) for x in pos_all[n, :L]], L, T, n, "warp_1d_grid")
+        _linear_laws(pos_l[n][:L], L, T, n, "warp_1d_grid")
         for f in range(F):
-            _linear_laws([float(x) for x in out[n, :L, f]], L, T, n, "apply_parameters on a ramp")
+            _linear_laws(out_l[n][f][:L], L, T, n, "apply_parameters on a ramp")
     if any(L < T for L in lens):
         classes.add("some_length_below_T")
     if case.get("script") is not None:
         classes.add("scripted_uniforms")
+    _layout_classes(case, classes)
     return Info(nontrivial="time_warp_limited_by_half_size" in classes, classes=sorted(classes))
 
 
@@ -576,7 +906,8 @@ def _warp_check(case):
 def _range_strategy(tier):
     @st.composite
     def build(draw):
-        N, T, F, lengths = draw(_shape(tier))
+        case = draw(_base(tier, big_dims=_warp_dims(), big_weight=2 if ENABLE_LONG_WARP else 1))
+        T, F = case["T"], case["F"]
         cfg = draw(_cfg(T, F, warp=True, masks=draw(st.booleans()), order=True))
         which = draw(st.sampled_from(["time", "freq", "both"]))
         if which != "freq" and not cfg["max_time_warp"]:
@@ -587,10 +918,15 @@ def _range_strategy(tier):
             cfg["max_freq_warp"] = 0.0
         if which == "freq":
             cfg["max_time_warp"] = 0.0
-        case = {"N": N, "T": T, "F": F, "lengths": lengths, "cfg": cfg,
-                "route": draw(st.sampled_from(["module", "functional"])),
-                "fa": draw(st.integers(1, 50)), "fb": draw(st.integers(0, 50)),
-                "signed": draw(st.booleans())}
+        case.update({"cfg": cfg,
+                     "route": draw(st.sampled_from(["module", "functional"])),
+                     "fa": draw(st.integers(1, 50)), "fb": draw(st.integers(0, 50)),
+                     "signed": draw(st.booleans())})
+        vk = draw(st.integers(0, 7))
+        if vk == 0:
+            case["feat_kind"] = "constant"  # ties: the range is a single value
+        elif vk == 1:
+            case["scale_exp"] = draw(st.sampled_from([60, -60, 100, -100]))
         if draw(st.integers(0, 3)) == 0:
             case["script"] = draw(st.lists(_uniform_k(), min_size=1, max_size=16))
             case["seed"] = 0
@@ -603,12 +939,17 @@ def _range_strategy(tier):
 
 
 @subcheck("C08", "warp_range", _range_strategy, 1200, 30000,
-          doc="time and/or frequency warp of order 1..3 with or without masks on distinct dyadic features: finite, inside [min, max] of that element's input (1e-5 relative), masked cells exactly 0, shape kept",
-          required_classes=["order_1", "order_2", "order_3", "time_warp", "freq_warp", "with_masks"])
+          doc="time and/or frequency warp of order 1..3 with or without masks on distinct dyadic features (1 in 8 constant, 1 in 8 scaled by 2^+-60 / 2^+-100): finite, inside [min, max] of that element's input (1e-5 relative), masked cells exactly 0, shape kept; batches of 15..257 (1025) elements; offset / permuted / strided views; T, F from 65 to 2049 only behind ENABLE_LONG_WARP",
+          required_classes=["order_1", "order_2", "order_3", "time_warp", "freq_warp", "with_masks", "big_N",
+                            "feats_offset", "feats_perm_tnf", "feats_perm_nft", "feats_strided", "lengths_offset",
+                            "constant_features", "scaled_2^100", "scaled_2^-100"]
+          + (["big_T", "big_F"] if ENABLE_LONG_WARP else []))
 def _range_check(case):
     import torch
     from pydrobert.torch.functional import spec_augment_apply_parameters
 
+    if _long_warp(case) and not ENABLE_LONG_WARP:
+        raise Reject("warps over more than %d frames / coefficients are behind ENABLE_LONG_WARP" % LONG_WARP_ABOVE)
     feats = _feats(case)
     lengths = _lengths(case)
     N, T, F = feats.shape
@@ -635,7 +976,8 @@ def _range_check(case):
     require(bool((out[masked] == 0).all()), "masked cell is not exactly 0 after warping", out[masked][:4].tolist(), 0)
     for n in range(N):
         lo, hi = float(feats[n].min()), float(feats[n].max())
-        tol = 1e-5 * max(abs(lo), abs(hi), 1.0)
+        # scaling by a power of two scales every intermediate exactly, so the tolerance scales with it
+        tol = 1e-5 * max(abs(lo), abs(hi), 2.0 ** (case.get("scale_exp") or 0))
         vals = out[n][~masked[n]]
         if vals.numel():
             mn, mx = float(vals.min()), float(vals.max())
@@ -650,6 +992,9 @@ def _range_check(case):
         classes.add("with_masks")
     if any(L < T for L in _eff_lengths(case)):
         classes.add("some_length_below_T")
+    if case.get("feat_kind") == "constant":
+        classes.add("constant_features")
+    _layout_classes(case, classes)
     return Info(nontrivial=_nontrivial(case, classes) or "freq_warp_limited_by_half_size" in classes, classes=sorted(classes))
 
 
@@ -659,17 +1004,30 @@ def _range_check(case):
 def _call_strategy(tier):
     @st.composite
     def build(draw):
-        N, T, F, lengths = draw(_shape(tier))
-        return {"N": N, "T": T, "F": F, "lengths": lengths, "cfg": draw(_cfg(T, F, order=True)),
-                "seed": draw(st.integers(0, 2 ** 31 - 1)), "script": None,
-                "fa": draw(st.integers(1, 50)), "fb": draw(st.integers(0, 50))}
+        case = draw(_base(tier, big_dims=("T", "N", "F", "MT", "MF"), garbage=True))
+        N, T, F = case["N"], case["T"], case["F"]
+        case.update({"cfg": draw(_cfg(T, F, order=True)),
+                     "seed": draw(st.integers(0, 2 ** 31 - 1)), "script": None,
+                     "fa": draw(st.integers(1, 50)), "fb": draw(st.integers(0, 50))})
+        _apply_big_cfg(case)
+        _no_long_warp(case)
+        # call history of the module object before the judged calls: other batches (same or other N / T / F,
+        # lengths given or omitted), in training or evaluation mode
+        hist = []
+        for _ in range(draw(st.sampled_from([0, 0, 1, 1, 2]))):
+            hist.append({"N": draw(st.sampled_from([N, N, 1, 2, 3])), "T": draw(st.sampled_from([T, 1, 2, 5, 9, 33])),
+                         "F": draw(st.sampled_from([F, F, 1, 4])), "lengths": draw(st.sampled_from(["none", "none", "full", "mod"])),
+                         "mode": draw(st.sampled_from(["train", "train", "eval"])), "seed": draw(st.integers(0, 99))})
+        case["history"] = hist
+        return case
 
     return build()
 
 
 @subcheck("C08", "call_modes", _call_strategy, 600, 15000,
-          doc="eval mode (module and functional) returns the input unchanged; the training call equals apply_parameters(draw_parameters) under the same generator state; shape and dtype kept",
-          required_classes=["train_changed_something"])
+          doc="eval mode (module and functional) returns the input unchanged; the training call equals apply_parameters(draw_parameters) under the same generator state; shape and dtype kept; the module object may have been called before on other batches in train / eval mode and must give what a fresh module gives; thresholds 15..2049 for T, N, F, number of masks (warps off beyond 64 unless ENABLE_LONG_WARP); offset / permuted / strided views; garbage past the lengths",
+          required_classes=["train_changed_something", "history_train", "history_eval", "history_same_N_other_T", "history_lengths_omitted_twice",
+                            "big_T", "big_N", "feats_offset", "feats_perm_tnf", "lengths_strided", "garbage_past_length"])
 def _call_check(case):
     import torch
     from pydrobert.torch.functional import spec_augment
@@ -677,10 +1035,29 @@ def _call_check(case):
     feats = _feats(case)
     lengths = _lengths(case)
     cfg = case["cfg"]
+    if _long_warp(case) and not ENABLE_LONG_WARP:
+        raise Reject("warps over more than %d frames / coefficients are behind ENABLE_LONG_WARP" % LONG_WARP_ABOVE)
     N, T, F = feats.shape
     before = feats.clone()
     m = _module(cfg)
     args = (feats,) if lengths is None else (feats, lengths)
+    classes = set()
+
+    for h in case.get("history") or []:
+        hc = {"N": h["N"], "T": h["T"], "F": h["F"], "fa": 7, "fb": h["seed"],
+              "lengths": None if h["lengths"] == "none" else {"rule": "near" if h["lengths"] == "full" else "mod", "a": 0 if h["lengths"] == "full" else 3, "b": 0 if h["lengths"] == "full" else h["seed"]}}
+        if not ENABLE_LONG_WARP and ((cfg["max_time_warp"] and h["T"] > LONG_WARP_ABOVE) or (cfg["max_freq_warp"] and h["F"] > LONG_WARP_ABOVE)):
+            continue
+        hf, hl = _feats(hc), _lengths(hc)
+        m.train(h["mode"] == "train")
+        torch.manual_seed(h["seed"])
+        ho = m(hf) if hl is None else m(hf, hl)
+        require(tuple(ho.shape) == tuple(hf.shape), "output shape differs from input shape (earlier call)", list(ho.shape), list(hf.shape))
+        classes.add("history_" + h["mode"])
+        if h["N"] == N and h["T"] != T:
+            classes.add("history_same_N_other_T")
+        if hl is None and lengths is None:
+            classes.add("history_lengths_omitted_twice")
 
     def fargs(training):
         return (feats, float(cfg["max_time_warp"]), float(cfg["max_freq_warp"]), cfg["max_time_mask"], cfg["max_freq_mask"],
@@ -690,10 +1067,9 @@ def _call_check(case):
     m.eval()
     torch.manual_seed(case["seed"])
     out = m(*args)
-    require(tuple(out.shape) == (N, T, F) and torch.equal(out, before), "eval mode changed the input", None, None)
+    require(tuple(out.shape) == (N, T, F) and _same(out, before), "eval mode changed the input", None, None)
     out_f = spec_augment(*fargs(False))
-    require(tuple(out_f.shape) == (N, T, F) and torch.equal(out_f, before), "functional form with training=False changed the input", None, None)
-    classes = set()
+    require(tuple(out_f.shape) == (N, T, F) and _same(out_f, before), "functional form with training=False changed the input", None, None)
     if out is feats:
         classes.add("eval_returns_same_object")
     m.train()
@@ -705,13 +1081,143 @@ def _call_check(case):
     exp = m.apply_parameters(feats, params, lengths) if lengths is not None else m.apply_parameters(feats, params)
     require(tuple(got.shape) == (N, T, F), "training output shape differs from input shape", list(got.shape), [N, T, F])
     require(got.dtype == feats.dtype, "training output dtype differs", str(got.dtype), str(feats.dtype))
-    require(torch.equal(got, exp), "training call differs from apply_parameters(draw_parameters) under the same generator state",
-            got.tolist(), exp.tolist())
+    require(_same(got, exp), "training call differs from apply_parameters(draw_parameters) under the same generator state",
+            got.tolist() if got.numel() <= 64 else None, exp.tolist() if exp.numel() <= 64 else None)
     torch.manual_seed(case["seed"])
     got_f = spec_augment(*fargs(True))
-    require(torch.equal(got_f, exp), "functional spec_augment differs from the module under the same generator state",
-            got_f.tolist(), exp.tolist())
-    require(torch.equal(feats, before), "the call modified its input in place", None, None)
-    if not torch.equal(got, before):
+    require(_same(got_f, exp), "functional spec_augment differs from the module under the same generator state",
+            got_f.tolist() if got_f.numel() <= 64 else None, exp.tolist() if exp.numel() <= 64 else None)
+    if case.get("history"):
+        fresh = _module(cfg)
+        torch.manual_seed(case["seed"])
+        got2 = fresh(*args)
+        require(_same(got, got2), "the module's result depends on its earlier calls (differs from a fresh module under the same generator state)",
+                got.tolist() if got.numel() <= 64 else None, got2.tolist() if got2.numel() <= 64 else None)
+    require(_same(feats, before), "the call modified its input in place", None, None)
+    if not _same(got, before):
         classes.add("train_changed_something")
+    _layout_classes(case, classes)
     return Info(nontrivial=_nontrivial(case, classes), classes=sorted(classes))
+
+
+# ------------------------------------------------------------------ every threshold, every run
+#
+# The generated sub-checks pick their sizes through Hypothesis, which re-uses few distinct values per run (a
+# whole size band can be missing from a run).  This sub-check enumerates, deterministically, one case per
+# threshold and dimension for each of them and hands it to the same check functions; the class labels are
+# prefixed with the name of the sub-check they exercise.
+
+
+def _cyc(xs, i):
+    return xs[i % len(xs)]
+
+
+def _grid_cfg(i, T, F, warp, masks, order=1):
+    return {"max_time_warp": _cyc([1.0, 80.0, T / 2.0 + 0.5, 3.0], i) if warp else 0.0,
+            "max_freq_warp": _cyc([0.0, 1.0, F / 2.0 + 0.5], i) if warp else 0.0,
+            "max_time_mask": _cyc([3, 100, T + 1, 1], i) if masks else 0,
+            "max_freq_mask": _cyc([2, F + 5, 1], i) if masks else 0,
+            "max_time_mask_proportion": _cyc([1.0, 0.5, 0.04, 0.25], i) if masks else 0.0,
+            "num_time_mask": _cyc([2, 5, 1, 3], i) if masks else 0,
+            "num_time_mask_proportion": _cyc([1.0, 0.5, 1.0, 0.04], i) if masks else 0.0,
+            "num_freq_mask": _cyc([1, 2, 3], i) if masks else 0,
+            "interpolation_order": order}
+
+
+def _grid_base(i, dim, size):
+    N, T, F = 1 + i % 2, 1 + (3 * i) % 6, 1 + i % 3
+    if dim == "T":
+        T = size
+    elif dim == "N":
+        N = size
+    elif dim == "F":
+        F = size
+    elif dim == "MT":
+        T = _cyc([33, 65, 129, 257], i)
+    lengths = _cyc([None, {"rule": "thresh", "a": 1 + i % 7, "b": 3 * i}, {"rule": "near", "a": 0, "b": 0},
+                    {"rule": "mod", "a": 5 + i, "b": 2 * i + 1}, {"rule": "near", "a": 1 + i % 4, "b": i}], i)
+    case = {"N": N, "T": T, "F": F, "lengths": lengths, "big": dim, "fa": 1 + (7 * i) % 50, "fb": (11 * i) % 50,
+            "layout": {"feats": _cyc(FEAT_LAYOUTS, i), "lengths": _cyc(VEC_LAYOUTS, i // 2)}}
+    if dim in ("MT", "MF"):
+        case["big_count"] = size
+    return case
+
+
+def _size_grid(tier):
+    thorough = tier == "thorough"
+    out = []
+
+    def dims(names):
+        for dim in names:
+            limit = 2049 if dim == "T" else (1025 if thorough else 257)
+            for i, size in enumerate(x for x in THRESH if x <= limit):
+                yield dim, i, size
+
+    for dim, i, size in dims(("T", "N", "F", "MT", "MF")):
+        for sub in ("draw_bounds", "draw_bounds_injected", "mask_exact", "call_modes"):
+            j = i + len(sub)
+            case = _grid_base(j, dim, size)
+            case["cfg"] = _grid_cfg(j, case["T"], case["F"], warp=sub in ("draw_bounds", "draw_bounds_injected", "call_modes"),
+                                    masks=True, order=1 + j % 3)
+            _apply_big_cfg(case)
+            _no_long_warp(case)
+            if j % 3 == 0:
+                case["pad_fill"] = _cyc(PAD_FILLS, j)
+            case["route"] = _cyc(["module", "functional"], j)
+            if sub == "draw_bounds_injected" or (sub == "mask_exact" and j % 2):
+                case["script"] = [0, TWO24 - 1, (j * 104729) % TWO24, 1, TWO24 // 2, TWO24 - 2, (j * 15485863) % TWO24][: 2 + j % 6]
+                case["seed"] = 0
+            else:
+                case["script"] = None
+                case["seed"] = 1000003 * j + 17
+            if sub == "mask_exact":
+                gen = j % 3 == 1 and dim not in ("MT", "MF")
+                case.update({"source": "generated" if gen else "drawn", "dtype": _cyc(["float32", "float64"], j), "order": 1 + j % 3,
+                             "empty_style": _cyc(["empty", "none"], j)})
+                if gen:
+                    case["mask_rule"] = {"mt": 1 + j % 3, "mf": j % 3, "a": j % 50, "b": (7 * j) % 50}
+                    case["layout"]["params"] = _cyc(["contig", "transposed", "offset", "strided"], j)
+                    del case["cfg"]
+                if j % 4 == 0:
+                    case["special_cells"] = [[j % 3, (5 * j) % 70, j % 12, _cyc(["-inf", "nan", "inf", "huge"], j)], [0, j % 70, (j // 2) % 12, "-inf"]]
+            if sub == "call_modes":
+                case["history"] = [] if j % 3 == 0 else [{"N": case["N"], "T": _cyc([1, 5, 33], j), "F": case["F"], "lengths": _cyc(["none", "mod"], j),
+                                                         "mode": _cyc(["train", "eval"], j), "seed": j % 100}]
+            out.append({"sub": sub, "case": case})
+    warp_dims = ("N", "T", "F") if ENABLE_LONG_WARP else ("N",)
+    for dim, i, size in dims(warp_dims):
+        for sub in ("linear_warp", "warp_range"):
+            j = i + len(sub)
+            case = _grid_base(j, dim, size)
+            if sub == "linear_warp" and dim == "F":
+                continue
+            case["cfg"] = _grid_cfg(j, case["T"], case["F"], warp=True, masks=sub == "warp_range" and j % 2 == 0, order=1 if sub == "linear_warp" else 1 + j % 3)
+            if sub == "linear_warp":
+                case["cfg"]["max_freq_warp"] = 0.0
+                case["layout"]["params"] = _cyc(["contig", "offset", "strided"], j)
+            else:
+                case["signed"] = j % 2 == 0
+                if j % 5 == 0:
+                    case["scale_exp"] = _cyc([100, -100, 60, -60], j)
+            case["route"] = _cyc(["module", "functional"], j)
+            if j % 4 == 0:
+                case["script"], case["seed"] = [0, TWO24 - 1, (j * 104729) % TWO24][: 1 + j % 3], 0
+            else:
+                case["script"], case["seed"] = None, 7919 * j + 3
+            out.append({"sub": sub, "case": case})
+    return out
+
+
+_GRID_CHECKS = {"draw_bounds": _draw_check, "draw_bounds_injected": _draw_check, "mask_exact": _mask_check,
+                "linear_warp": _warp_check, "warp_range": _range_check, "call_modes": _call_check}
+
+
+@subcheck("C08", "size_grid", _size_grid, 0, 0, exhaustive=True,
+          doc="deterministic grid: one rule-expanded case per threshold 15..2049 (T) / 15..257 (1025) (N, F, numbers of masks) and per dimension, handed to the check functions of draw_bounds, draw_bounds_injected, mask_exact, call_modes (all five dimensions; warps off beyond 64 unless ENABLE_LONG_WARP) and of linear_warp, warp_range (batch only unless ENABLE_LONG_WARP); layouts, garbage, routes, scripted uniforms cycle with the index; class labels are prefixed with the sub-check's name",
+          required_classes=[s_ + ":" + c for s_ in ("draw_bounds", "draw_bounds_injected", "mask_exact", "call_modes")
+                            for c in ("size_15_65", "size_ge_127", "size_ge_1023", "big_T", "big_N", "big_F", "big_MT", "big_MF")]
+          + ["linear_warp:big_N", "warp_range:big_N", "linear_warp:size_ge_127", "warp_range:size_ge_127"]
+          + (["linear_warp:size_ge_1023", "warp_range:size_ge_1023", "warp_range:big_F"] if ENABLE_LONG_WARP else []))
+def _grid_check(case):
+    info = _GRID_CHECKS[case["sub"]](case["case"])
+    return Info(nontrivial=info.nontrivial, classes=[case["sub"] + ":" + c for c in info.classes])
